@@ -42,6 +42,15 @@ Theorem C09_unlock_failure_keeps_record : forall t th s r b f,
 Proof. exact unlock_failure_keeps_record. Qed.
 Print Assumptions C09_unlock_failure_keeps_record.
 
+(** what is still held after a failed Unlock is recorded by its holder -- every reachable state,
+    every fault plan, Unlock failures included: CleanUpOwnLocks (which unlocks every recorded key
+    at exit) releases everything the process holds; the check observes that nothing is held or
+    recorded after it has run *)
+Theorem C09_held_is_recorded : forall cs st s, reachable cs st s ->
+  forall l t, lks (sh s) l = Some t -> exists th, thread_at s t th /\ recd th = true /\ l = c_lk (cfg th).
+Proof. exact held_is_recorded. Qed.
+Print Assumptions C09_held_is_recorded.
+
 (** consequence for the other instances: as long as no Unlock fails, nobody waits for ever *)
 Theorem C09_others_never_blocked_for_ever : forall cs st es s,
   runs unlock_ok (init_state cs st) es s ->
@@ -83,13 +92,14 @@ Qed.
 
 (** tie to the source (translator T, re-read from the working tree on every run): the five
     functions that take storage locks -- obtainCert, renewCert, updateARI, CleanStorage,
-    newACMEClientWithAccount -- are the only callers of acquireLock / releaseLock, and in each the
+    newACMEClientWithAccount, deleteAccountLocallyIfCurrent (added by C20's fix f0aaa6b, same
+    shape) -- are the only callers of acquireLock / releaseLock, and in each the
     acquisition is followed, right after its error return, by the deferred release of the same
     storage and key (the model's [PLockWait] -> locked region -> [PUnlock] shape); releaseLock
     unlocks with context.WithoutCancel and drops the record exactly when Unlock succeeded;
     acquireLock records exactly when Lock succeeded ([recd]); the lock names *)
 Theorem C09_source_shape_matches_model :
-  c09_lock_site_count = 5 /\ c09_every_acquire_has_deferred_release = true /\
+  c09_lock_site_count = 6 /\ c09_every_acquire_has_deferred_release = true /\
   c09_release_uses_context_without_cancel = true /\
   c09_record_deleted_iff_unlock_ok = true /\ c09_record_inserted_iff_lock_ok = true /\
   c09_clean_lock_name = [115; 116; 111; 114; 97; 103; 101; 95; 99; 108; 101; 97; 110]%N /\
